@@ -163,7 +163,7 @@ theorem addForeignKey_frame (t t' : Table) (fk : ForeignKey) (hs : t.addForeignK
         simp only at h1
         obtain ⟨l, _, h1⟩ := bind_ok h1
         have := pure_ok h1; subst this; rfl
-    show List.map (fun c : Column => (c.name, c.action)) (t1.cols.map _) = _
+    show List.map (fun c : Column => (c.name, c.action, c.cur.typ)) (t1.cols.map _) = _
     rw [List.map_map, h1s]
     apply List.map_congr_left
     intro c _
